@@ -41,6 +41,7 @@ CONCLUSION = {
     "snapshot-object=view-at-creation-or-invalid": "C07_snapshot_seq: a MemBufferSnapshot object used after further operations answers with the staging-blind view of its creation, or refuses (SnapshotSeqNo moved)",
     "dirty-is-monotone": "C07_dirty_monotone: Dirty() never goes back to false",
     "union-iter=overlay-merge": "C07_iter_contract: UnionIter over two iterators that are strictly sorted in the iteration direction yields the sorted overlay (buffer entry wins, buffered tombstone hides); with a failing inner iterator a prefix of it, then the error",
+    "open-snapshot-iterator-keeps-its-view": "C07_snapshot_ignores_staging / C07_snapshot_seq: a snapshot iterator that stays open while its level keeps writing (ART: GetSnapshot().BatchedSnapshotIter, RBT: SnapshotIter) yields exactly the staging-blind view of its creation, or refuses once SnapshotSeqNo moved",
     "history-head=buffered-value": "SelectValueHistory starts at the buffered value; a key without value has no history",
     "inspect-stage-covers-changes": "InspectStage(h) reports every key whose buffered value changed since Staging h, each once",
 }
